@@ -219,6 +219,10 @@ func (e *Exec) lockAcquire(fr *Frame, st *State, id string, lock Val, pos token.
 			e.monitorInv(fr, st, lc, root, pos, false)
 		}
 	}
+	// snapshot for acq(...): the state as found when the lock was (re)acquired
+	snap := st.clone()
+	snap.acq = nil
+	st.acq = snap
 }
 
 func (e *Exec) lockRelease(fr *Frame, st *State, id string, lock Val, pos token.Pos) {
